@@ -389,8 +389,10 @@ def _same_sequences(got, want, skip_args=(), trials=48):
     events agree by callee, receiver and argument images."""
     from .termflow import Valuation
 
-    def sig(val, e):
+    def sig(val, e, whole=False):
         def img(v):
+            if whole:
+                v = _whole_collection(v)
             try:
                 return repr(val.image(vkey(v)))
             except (ValueError, OverflowError, ZeroDivisionError):
@@ -403,7 +405,7 @@ def _same_sequences(got, want, skip_args=(), trials=48):
             for attempt in range(3):
                 val = Valuation(t, salt="s%d" % attempt, base=None if attempt == 0 else Valuation(t, salt="s0"))
 
-                def active(evs):
+                def active(evs, whole=False):
                     out = []
                     for e in evs:
                         try:
@@ -411,10 +413,11 @@ def _same_sequences(got, want, skip_args=(), trials=48):
                         except (ValueError, OverflowError, ZeroDivisionError):
                             on = True
                         if on and not _vacuous(val, e):
-                            out.append(sig(val, e))
+                            out.append(sig(val, e, whole))
                     return out
 
-                if active(got) == active(want):
+                # (arguments as they are; or with a list that names every element of one collection read as that collection)
+                if active(got) == active(want) or active(got, True) == active(want, True):
                     agreed = True
                     break
             if not agreed:
